@@ -62,40 +62,85 @@ def expected(oc_inst, flag):
 
 
 def dep_bits(t, depth=0):
-    """(bits of rflags the term may depend on, is_bitwise)"""
-    if depth > 40 or not isinstance(t, tuple) or not t:
-        return set(), False
+    """(bits of rflags the term may depend on, is_bitwise) -- computed per result bit, so masks and shifts by constants
+    keep track of which flag ends up where: ((f >> 7) ^ (f >> 11)) & 1 depends on bits 7 and 11 only"""
+    pos = dep_pos(t, depth)
+    out = set()
+    for s_ in pos:
+        out |= s_
+    return out, True
+
+
+def _spread(u, w):
+    return [set(u) for _ in range(w)]
+
+
+def dep_pos(t, depth=0):
+    """per result bit (LSB first) the set of rflags bits it may depend on"""
+    if not isinstance(t, tuple) or not t:
+        return []
+    try:
+        w = A.width_of(t) or 64
+    except Exception:  # noqa
+        w = 64
+    if depth > 40:
+        return _spread(range(64), w)
     if t == H.RFLAGS:
-        return set(range(64)), True
+        return [{i} for i in range(64)]
     k = t[0]
     if k == "int":
-        return set(), True
+        return [set() for _ in range(w)]
     if k == "w":
-        return dep_bits(t[1], depth + 1)
+        p = dep_pos(t[1], depth + 1)
+        return (p + [set() for _ in range(w)])[:w] if p else [set() for _ in range(w)]
     if k == "bin":
         op, a, b = t[1], t[2], t[3]
-        da, ba = dep_bits(a, depth + 1)
-        db, bb = dep_bits(b, depth + 1)
+        pa, pb = dep_pos(a, depth + 1), dep_pos(b, depth + 1)
+        n = max(len(pa), len(pb), 1)
+        pa = pa + [set() for _ in range(n - len(pa))]
+        pb = pb + [set() for _ in range(n - len(pb))]
         if op == "BitAnd":
-            if ba and A.is_int(b):
-                return {i for i in da if (b[1] >> i) & 1}, True
-            if bb and A.is_int(a):
-                return {i for i in db if (a[1] >> i) & 1}, True
-        if op in ("BitAnd", "BitOr", "BitXor"):
-            return da | db, ba and bb
-        return da | db, False
+            out = []
+            for i in range(n):
+                if A.is_int(U.strip(b)) and not (U.strip(b)[1] >> i) & 1:
+                    out.append(set())
+                elif A.is_int(U.strip(a)) and not (U.strip(a)[1] >> i) & 1:
+                    out.append(set())
+                else:
+                    out.append(pa[i] | pb[i])
+            return out
+        if op in ("BitOr", "BitXor"):
+            return [pa[i] | pb[i] for i in range(n)]
+        if op in ("Shr", "ShrUnchecked", "Shl", "ShlUnchecked") and A.is_int(U.strip(b)):
+            kk = U.strip(b)[1]
+            if op.startswith("Shr"):
+                return [pa[i + kk] if i + kk < n else set() for i in range(n)]
+            return [pa[i - kk] if i - kk >= 0 else set() for i in range(n)]
+        u = set()
+        for s_ in pa + pb:
+            u |= s_
+        if op in ("Eq", "Ne", "Lt", "Le", "Gt", "Ge"):
+            return [u] + [set() for _ in range(7)]
+        return _spread(u, n)
     if k == "un":
-        d, b = dep_bits(t[2], depth + 1)
-        return d, b and t[1] == "Not"
+        p = dep_pos(t[2], depth + 1)
+        if t[1] == "Not":
+            return p
+        u = set()
+        for s_ in p:
+            u |= s_
+        return _spread(u, max(len(p), 1))
     if k == "cast":
-        d, b = dep_bits(t[1], depth + 1)
-        return {i for i in d if i < t[4]} if b else d, b
-    out = set()
+        p = dep_pos(t[1], depth + 1)
+        tw = t[4] if isinstance(t[4], int) else w
+        fill = set(p[-1]) if p and len(t) > 3 and t[3] is True else set()
+        return (p + [set(fill) for _ in range(tw)])[:tw]
+    u = set()
     for x in t[1:]:
         if isinstance(x, tuple):
-            d, _ = dep_bits(x, depth + 1)
-            out |= d
-    return out, False
+            for s_ in dep_pos(x, depth + 1):
+                u |= s_
+    return _spread(u, w)
 
 
 def run(ctx):
